@@ -63,6 +63,71 @@ def _ok_binding(e, fi):
     return False
 
 
+def _is_template_encoding(model, fi, e, _depth=0):
+    """Does e denote the encoding of the template being compiled?  ->
+    (bool, reason when not)"""
+    if e is None or _depth > 4:
+        return False, 'no encoding'
+    s = norm(e)
+    if s == 'self.encoding':
+        return True, ''
+    if isinstance(e, ast.Call) and isinstance(e.func, ast.Name) and \
+            e.func.id == 'getattr' and len(e.args) >= 2 and \
+            norm(e.args[0]) == 'self' and norm(e.args[1]) == "'encoding'":
+        return True, ''
+    if isinstance(e, ast.Name):
+        defs = model.local_defs(fi, e.id)
+        if not defs:
+            return False, f'`{e.id}` is not bound from the template'
+        for d in defs:
+            if d == 'param':
+                if e.id != 'encoding':
+                    return False, f'parameter `{e.id}`'
+                continue
+            if not isinstance(d, ast.AST):
+                return False, f'`{e.id}` is bound in a way not followed'
+            ok, why = _is_template_encoding(model, fi, d, _depth + 1)
+            if not ok:
+                return False, why
+        return True, ''
+    if isinstance(e, ast.Attribute) and e.attr == 'encoding' and \
+            isinstance(e.value, ast.Name):
+        defs = [d for d in model.local_defs(fi, e.value.id)]
+        if defs and all(isinstance(d, ast.Call) and isinstance(
+                d.func, ast.Attribute) and d.func.attr == 'SubTemplate'
+                for d in defs):
+            S = model.cls('DT_String', 'String')
+            for ci in [S] + list(model.subclasses(S)):
+                sub = ci.methods.get('SubTemplate')
+                if sub is None:
+                    continue
+                for x in own_nodes(sub.node):
+                    if not isinstance(x, ast.Return):
+                        continue
+                    v = x.value
+                    enc = None
+                    if isinstance(v, ast.Call):
+                        enc = next((k.value for k in v.keywords
+                                    if k.arg == 'encoding'), None)
+                    ok, why = _is_template_encoding(model, sub, enc,
+                                                    _depth + 1)
+                    if not ok:
+                        return False, (
+                            f'`{s}` is the encoding of the section '
+                            f'template, and {sub.where} creates sections '
+                            'without the encoding of the template they '
+                            'belong to')
+            return True, ''
+        return False, f'`{s}` is not the encoding of this template'
+    if isinstance(e, ast.BoolOp):
+        for v in e.values:
+            ok, why = _is_template_encoding(model, fi, v, _depth + 1)
+            if ok:
+                return True, ''
+        return False, f'`{s}`'
+    return False, f'`{s}` is not derived from the template\'s encoding'
+
+
 def rule_threading(model):
     ra = RuleResult('C19.R1a', 'the parser passes the template encoding to '
                     'every command it constructs')
@@ -87,6 +152,14 @@ def rule_threading(model):
                                'without the template encoding: bytes it '
                                'decodes (html_quote of a bytes value) fall '
                                'back to Latin-1', node=n, ctx=fi)
+                else:
+                    ok, why = _is_template_encoding(model, fi, enc)
+                    if not ok:
+                        ra.finding(fi.where, n, 'the encoding handed to '
+                                   'the command is not the encoding of the '
+                                   f'template being compiled: {why}; bytes '
+                                   'rendered inside the block are decoded '
+                                   'with another encoding', node=n, ctx=fi)
     for key, ok in sorted(ctor_ok.items()):
         ra.instance('DT_String:String.commands', f'{key!r} constructor '
                     'accepts encoding' if ok else f'{key!r} constructor has '
